@@ -33,6 +33,9 @@ def full_inputs(tier):
     for name, d in fams:
         d = F.override(d, {'Total O&M Cost': '3', 'Wellfield O&M Cost Adjustment Factor': '2', 'Investment Tax Credit Rate': '0.2', 'Plant Outlet Pressure': '500'})
         out.append((name, F.lines(d)))
+    # the list-style spelling of the gradient profile (one line carrying several values; the reader parses it from the raw line)
+    d = F.override(F.base(1, 2, 9, 4, (3, 2, 1)), {'Gradient 1': None, 'Number of Segments': '3', 'Gradients': '60, 35, 80', 'Thicknesses': '1.1, 0.9', 'Reservoir Depth': '3.4'})
+    out.append(('list-gradients', F.lines(d)))
     return out
 
 
@@ -74,7 +77,8 @@ def variant_task(payload):
             continue
         if o['status'] != 'accepted':
             res['not_accepted'] += 1
-            check.fail(res, f'{cls}/rejected', f'[{payload["id"]}] variant "{label}" of an accepted input is rejected: {o.get("exc")}')
+            key = f'{cls}/rejected' + (f'/{payload["id"]}/{label}' if payload['id'] == 'full/list-gradients' else '')      # list-valued lines: own keys
+            check.fail(res, key, f'[{payload["id"]}] variant "{label}" of an accepted input is rejected: {o.get("exc")}')
             continue
         res['accepted'] += 1
         bad = snap.diff(b_out, o['hook']['out'], 0.0, 0.0)
@@ -102,6 +106,8 @@ def text(lines, nl='\n'):
 def other_value(line):
     """a different in-range value for the duplicate-before test (numeric values only)."""
     name, _, val = line.partition(',')
+    if name.strip() in ('Gradients', 'Thicknesses'):      # list-valued: another list of the same length
+        return f'{name.strip()}, ' + ', '.join(f'{float(x) * 0.9:g}' for x in val.split(','))
     v = val.strip().split(',')[0].strip()
     try:
         x = float(v)
